@@ -1228,3 +1228,74 @@ def rule_l6(P):
     for k2 in sorted(set(others)):
         findings.append({"rule": "L6", "key": f"L6|other|{norm_fn(k2)}", "msg": f"{k2} builds Kind::Eof outside next_token's end-of-input path", "loc": P.body_file_line(k2), "detail": {}})
     return findings, obl, {"l6_eof_sites": len(eof_blocks)}
+
+
+def rule_l7(P, tables):
+    """'Quoting does not change the output': Glyphs custom parameter values are untyped plist scalars; `value = 1;` is
+    Plist::Integer and `value = "1";` is Plist::String.  Sibling agreement between the scalar accessors of `Plist`: a numeric /
+    boolean accessor that inspects the variant itself must have an arm for the String variant (as as_i64 and as_f64 do), and a
+    string accessor must have arms for the numeric variants - otherwise the two spellings of one value behave differently."""
+    from common import norm_fn
+    findings, obl = [], []
+    adt = P.adts.get("glyphs_reader::plist::Plist")
+    if not adt:
+        raise E5Error("L7: glyphs_reader::plist::Plist not found")
+    vidx = {v["name"]: str(i) for i, v in enumerate(adt["variants"])}
+    n = 0
+    for key, b in sorted(P.bodies.items()):
+        if (b.get("impl_self") or "").split("<")[0] != "glyphs_reader::plist::Plist" or b.get("dk") != "AssocFn":
+            continue
+        name = key.rsplit("::", 1)[1]
+        ret = b["locals"][0]
+        numeric = re.match(r"std::option::Option<(i\d+|u\d+|usize|isize|f32|f64|bool)>$", ret) and name.startswith("as_")
+        stringy = name.startswith("as_") and re.match(r"std::option::Option<&?(str|std::string::String|smol_str::SmolStr)>$", ret.replace("'_ ", "").replace("&'_ ", "&"))
+        if not (numeric or stringy):
+            continue
+        # does it look at the variant itself?
+        arms = None
+        for blk in b["blocks"]:
+            disc = [st["d"][0] for st in blk["s"] if st["rv"].get("r") == "discr" and st["rv"].get("p") in ([1, "*"], [1]) and len(st["d"]) == 1]
+            t = blk["t"]
+            if disc and t["t"] == "sw" and operand_local(t["o"]) in disc:
+                arms = set(t["v"])
+        if arms is None:
+            obl.append({"rule": "L7", "inst": f"Plist::{name} delegates to another accessor", "ok": True})
+            continue
+        n += 1
+        need = ["String"] if numeric else ["Integer", "Float"]
+        missing = [v for v in need if vidx.get(v) not in arms]
+        ok = not missing
+        obl.append({"rule": "L7", "inst": f"Plist::{name} has an arm for {'/'.join(need)} (the other spelling of the same scalar)", "ok": ok})
+        if not ok:
+            what = ("a quoted value (`value = \"1\";`) is ignored while the unquoted one works" if numeric else
+                    "an unquoted numeric-looking value (`value = 1.000;`, a glyph called `1`) is ignored while the quoted one works")
+            findings.append({"rule": "L7", "key": f"L7|Plist::{name}|{'+'.join(missing)}", "msg": f"glyphs_reader Plist::{name} matches on the variant but has no arm for {missing}: {what}, "
+                             f"so two spellings of the same source text give different fonts", "loc": P.body_file_line(key), "detail": {}})
+    if n < 2:
+        raise E5Error(f"L7: only {n} variant-matching scalar accessors found")
+    return findings, obl, {"l7_scalar_accessors": n}
+
+
+def rule_l8(P, tables):
+    """'Insignificant source formatting does not change the output': the Glyphs text must reach the plist tokenizer as it is.  Any
+    rewriting of the raw text with a regular expression (line anchors, character classes without whitespace) makes whitespace,
+    line breaks or key order on a line significant.  Census of regex use in glyphs-reader; each site is audited or reported."""
+    from common import norm_fn
+    findings, obl = [], []
+    allowed = {e["fn"]: e for e in tables.get("e5_tables", {}).get("regex_on_source_allowed", [])}
+    n = 0
+    for key, b in sorted(P.bodies.items()):
+        if not key.startswith("glyphs_reader::") or "#promoted" in key:
+            continue
+        uses = sorted({(s["info"].get("res") or s["info"]["fn"]) for s in P.iter_sites(key) if s["kind"] == "call" and s["info"] and (s["info"].get("res") or s["info"]["fn"]).startswith("regex::")})
+        if not uses:
+            continue
+        n += 1
+        nf = norm_fn(key)
+        ok = nf in allowed
+        obl.append({"rule": "L8", "inst": f"{nf} applies a regular expression ({uses[0].rsplit('::', 1)[-1]}..): {(allowed.get(nf) or {}).get('reason', 'NOT AUDITED')[:80]}", "ok": ok})
+        if not ok:
+            findings.append({"rule": "L8", "key": f"L8|{nf}", "msg": f"{key} rewrites / matches source text with a regular expression ({', '.join(u.rsplit('::', 2)[-2] + '::' + u.rsplit('::', 1)[-1] for u in uses[:3])}) "
+                             f"before or instead of the plist tokenizer: whitespace, line breaks and what else is on the line become significant, so reformatted but equal text "
+                             f"can parse differently or not at all", "loc": P.body_file_line(key), "detail": {}})
+    return findings, obl, {"l8_regex_functions": n}
